@@ -189,7 +189,7 @@ func c09Batched(c *Ctx) *RuleResult {
 		if !ok {
 			return true
 		}
-		if exprStr(ifs.Cond) != "err != nil" {
+		if !isErrNotNil(info, ifs.Cond) {
 			return true
 		}
 		if enclosingFuncLit(fl.Decl.Body, ifs) != nil {
@@ -250,21 +250,37 @@ func c09Batched(c *Ctx) *RuleResult {
 	})
 	// the flush closure
 	nu := p.Unit("pkg/blobstore", "NewBatchedStoreBlobAccess")
-	var lit *ast.FuncLit
+	// the flush function: second result of the constructor, a function literal or a method value
+	var litBody *ast.BlockStmt
+	var litPos ast.Node
+	flushUnit := nu
 	ast.Inspect(nu.Decl.Body, func(n ast.Node) bool {
-		if f, ok := n.(*ast.FuncLit); ok && lit == nil {
-			lit = f
+		ret, ok := n.(*ast.ReturnStmt)
+		if !ok || len(ret.Results) != 2 {
+			return true
+		}
+		switch x := ast.Unparen(ret.Results[1]).(type) {
+		case *ast.FuncLit:
+			litBody, litPos = x.Body, x
+		case *ast.SelectorExpr:
+			if fn, ok := nu.Info().Uses[x.Sel].(*types.Func); ok {
+				if fd := p.Decl(fn.Origin()); fd != nil {
+					litBody, litPos = fd.Body, fd
+					flushUnit = &FuncUnit{Fn: fn.Origin(), Decl: fd, Pkg: p.declPkg[fd]}
+				}
+			}
 		}
 		return true
 	})
-	if lit == nil {
-		panic(anchorError("NewBatchedStoreBlobAccess: flush closure"))
+	if litBody == nil {
+		panic(anchorError("NewBatchedStoreBlobAccess: flush function (second result)"))
 	}
-	g := NewFuncCFG(nu.Info(), lit.Body)
+	lit := struct{ Body *ast.BlockStmt }{litBody}
+	g := NewFuncCFG(flushUnit.Info(), lit.Body)
 	construct := constructOf(nu, "flush closure")
 	flushes := g.EveryPathPasses(func(n ast.Node) bool {
 		call, ok := n.(*ast.CallExpr)
-		return ok && calleeOf(nu.Info(), call) == fl.Fn
+		return ok && calleeOf(flushUnit.Info(), call) == fl.Fn
 	})
 	retOK := true
 	ast.Inspect(lit.Body, func(n ast.Node) bool {
@@ -272,16 +288,16 @@ func c09Batched(c *Ctx) *RuleResult {
 		if !ok || len(ret.Results) != 1 {
 			return true
 		}
-		src := resolveLocalAliasIn(nu, lit.Body, ret.Results[0])
-		if fieldOf(nu.Info(), src) != fe {
+		src := resolveLocalAliasIn(flushUnit, lit.Body, ret.Results[0])
+		if fieldOf(flushUnit.Info(), src) != fe {
 			retOK = false
 		}
 		return true
 	})
 	if flushes && retOK {
-		r.ok(construct, posOf(p, lit), "flushLocked on every path; every return yields the recorded error")
+		r.ok(construct, posOf(p, litPos), "flushLocked on every path; every return yields the recorded error")
 	} else {
-		r.bad(c.Prop, construct, posOf(p, lit), fmt.Sprintf("the flush function can report success without having flushed or without returning the recorded error (flushes on every path: %v, every return yields flushError: %v): a failure of an earlier automatic flush is lost and acknowledged blobs are missing", flushes, retOK))
+		r.bad(c.Prop, construct, posOf(p, litPos), fmt.Sprintf("the flush function can report success without having flushed or without returning the recorded error (flushes on every path: %v, every return yields flushError: %v): a failure of an earlier automatic flush is lost and acknowledged blobs are missing", flushes, retOK))
 	}
 	// Put refuses while error set
 	pu := p.Unit("pkg/blobstore", "batchedStoreBlobAccess.Put")
@@ -291,7 +307,7 @@ func c09Batched(c *Ctx) *RuleResult {
 			continue
 		}
 		for _, gd := range flattenGuards(GuardsOf(pu.Info(), pu.Decl.Body, w.Node)) {
-			if !gd.Pos && exprStr(gd.Cond) == "err != nil" {
+			if guardErrIsNil(pu.Info(), gd, "") {
 				refuses = true
 			}
 		}
@@ -377,9 +393,24 @@ func c09Wiring(c *Ctx) *RuleResult {
 		}
 		apps = append(apps, app{fn.Name(), call.Pos(), call})
 	}
+	// the variable that holds the executor being built: the one assigned from NewLocalBuildExecutor
+	chainVar := ""
+	ast.Inspect(u.Decl.Body, func(n ast.Node) bool {
+		if as, ok := n.(*ast.AssignStmt); ok && len(as.Lhs) == 1 && len(as.Rhs) == 1 {
+			if call, ok := ast.Unparen(as.Rhs[0]).(*ast.CallExpr); ok {
+				if fn := calleeOf(info, call); fn != nil && fn.Name() == "NewLocalBuildExecutor" {
+					chainVar = exprStr(as.Lhs[0])
+				}
+			}
+		}
+		return true
+	})
+	if chainVar == "" {
+		panic(anchorError("bb_worker main: variable assigned from NewLocalBuildExecutor"))
+	}
 	var assigns []*ast.AssignStmt
 	ast.Inspect(u.Decl.Body, func(n ast.Node) bool {
-		if as, ok := n.(*ast.AssignStmt); ok && len(as.Lhs) == 1 && exprStr(as.Lhs[0]) == "buildExecutor" {
+		if as, ok := n.(*ast.AssignStmt); ok && len(as.Lhs) == 1 && exprStr(as.Lhs[0]) == chainVar {
 			assigns = append(assigns, as)
 		}
 		return true
@@ -407,7 +438,7 @@ func c09Wiring(c *Ctx) *RuleResult {
 				continue
 			}
 			base := ast.Unparen(a.call.Args[0])
-			if id, ok := base.(*ast.Ident); ok && id.Name != "buildExecutor" {
+			if id, ok := base.(*ast.Ident); ok && id.Name != chainVar {
 				okChain = false
 			}
 		}
